@@ -53,6 +53,8 @@ def build(tier, seed):
             if impl == 0 and L > 1:
                 continue    # slicing tables: z3 decides L<=1 in seconds; L=2 gave no verdict in 25 min on z3
             for pat in (0, 1):
+                if pat == 0 and L > 3:
+                    continue    # 1..3 flips anywhere in 8 payload+checksum bytes: no verdict in 25 min
                 qs.append(Query("detect_%s_L%d_%s" % ("sse42" if impl else "slicing", L, "flips" if pat == 0 else "burst"),
                                 harness="c12_crcdetect.c", entry="h_detect", defines={"IMPL": impl, "L": L, "PATTERN": pat},
                                 units=["libmy/crc32c-slicing.c"], unwind=12, backend=be, timeout=1500, mem_gb=10, witness=(L == 1 and pat == 0),
@@ -60,7 +62,7 @@ def build(tier, seed):
     meta = {
         "functions": rc.FUNCS + ["verify_file", "verify_data_blocks (src/mtbl_verify.c)", "my_crc32c_sse42", "my_crc32c_slicing"],
         "units": ["mtbl/reader.c", "src/mtbl_verify.c", "libmy/crc32c-sse42.c", "libmy/crc32c-slicing.c"] + rc.UNITS,
-        "bounds": "files of <= 3 blocks (v1, v2, foreign prefix); damage modelled as 'recomputed CRC != stored CRC' for one chosen block (data, last, index), i.e. every alteration the CRC detects; reads by iteration, get and seek; mtbl_verify's verify_file on the same files; CRC-32C detection of 1..3 bit flips and bursts <= 32 bits decided on the real SSE4.2 implementation for payloads <= 4 bytes and on the slicing implementation for payloads <= 1 byte (all contents, all positions in payload+checksum)",
+        "bounds": "files of <= 3 blocks (v1, v2, foreign prefix); damage modelled as 'recomputed CRC != stored CRC' for one chosen block (data, last, index), i.e. every alteration the CRC detects; reads by iteration, get and seek; mtbl_verify's verify_file on the same files; CRC-32C detection of 1..3 bit flips and bursts <= 32 bits decided on the real SSE4.2 implementation for payloads <= 3 bytes (bursts: <= 4 bytes) and on the slicing implementation for payloads <= 1 byte (all contents, all positions in payload+checksum)",
         "outside": "the detection guarantee for longer blocks rests on the Hamming-distance / burst properties of the Castagnoli polynomial (cited mathematics) together with C17 (implementation = standard CRC-32C); that the writer stores crc(stored bytes) is asserted in the C09/C01 writer queries",
         "stubs": rc.STUBS + ["mtbl_verify.c: printf/fprintf/fputs/fflush compiled out, isatty nondeterministic, open/mmap/munmap ghost file"],
         "assumptions": ["a detected corruption is one for which the recomputed CRC differs from the stored field"],
